@@ -1400,4 +1400,17 @@ Tokens""")]),
          """            sig_param.annotation.__name__
             if isinstance(sig_param.annotation, type)""", """            getattr(sig_param.annotation, "__qualname__")
             if isinstance(sig_param.annotation, type)""")]),
+    # ---- JOIN-SOURCE (C19)
+    dict(id="joinsource-imports-glued", kind=B, props=["C19"], expect="JOIN-SOURCE", edits=[("gen.py",
+         """            imports = "\\n".join(
+                map(
+                    lambda node: to_code(node).rstrip("\\n"),""", """            imports = "".join(
+                map(
+                    lambda node: to_code(node).rstrip("\\n"),""")]),
+    dict(id="joinsource-neutral-terminated-pieces", kind=N, props=["C19"], expect="silent", edits=[("gen.py",
+         """            imports = "\\n".join(
+                map(
+                    lambda node: to_code(node).rstrip("\\n"),""", """            imports = "".join(
+                map(
+                    lambda node: to_code(node).rstrip("\\n") + "\\n",""")]),
 ]
